@@ -1,16 +1,16 @@
-(* Model/Serde.v -- json_syntax::to_value / from_value on typed data (src/serde/tser.rs,
+(* Model/Serde.v -- json_syntax::to_value / from_value on typed data (src/serde/ser.rs,
    src/serde/de.rs) and the serde_json side of C16.  Executable; NO proofs here.
 
    [tser]      transcribes `Serializer`, `KeySerializer`, `SerializeArray`, `SerializeMap`
               (with the `$serde_json::private::Number` hand-shake and
               `StringNumberSerializer`), `SerializeTupleVariant`, `SerializeStructVariant`.
    [de]       transcribes `impl Deserializer for Value`, `visit_array`, `visit_object`,
-              `MapKeyDeserializer`, `EnumDeserializer`, `VariantDeserializer` and
-              json-number's `Deserializer for &Number` -- DRIVEN BY A MODELLED CONTRACT of
+              `MapKeyDeserializer`, `EnumDeserializer`, `VariantDeserializer`, the number
+              helper `visit_number` and `deserialize_f32` -- DRIVEN BY A MODELLED CONTRACT of
               what the std / serde-derive generated `Deserialize` impls request.  The
               contract is part of the trusted base and is validated by the correspondence
               run; it is spelled out next to [de] below.
-   [ser_sj]   serde_json::to_value (serde_json/src/value/tser.rs, default features: objects
+   [ser_sj]   serde_json::to_value (serde_json/src/value/ser.rs, default features: objects
               are BTreeMaps ordered by key), [from_tsj] Value::from_serde_json
               (src/convert/serde_json.rs + json-number/src/serde_json.rs).
    [shape]    the JSON shape of a value: structure, strings and booleans exact, object
@@ -19,13 +19,14 @@
 
    Dependencies that live outside the crate are section variables:
      fmt_f64, fmt_f32 : lexical::to_string_with_options (float -> number spelling),
-     lossy            : lexical parse_with_options(lossy) = Number::as_f64_lossy,
      fmt_sj           : serde_json::Number's Display for a float.
+   Reading a spelling is NOT a dependency any more: `str::parse::<f64>` / `::<f32>` of std are
+   correctly rounded, i.e. [dbl] (Spec/NumSpelling.v) and [sgl] below.
    Executable reference instances are at the end of the file (extraction, correspondence). *)
 From Coq Require Import SpecFloat.
 From Flocq Require Import Core BinarySingleNaN.
 From JsonSyntax Require Import Base.Prelude Base.Value Base.Float64 Spec.EcmaNumber
-  Spec.Multimap Spec.SerdeTyped.
+  Spec.NumSpelling Spec.Multimap Spec.SerdeTyped.
 Local Open Scope Z_scope.
 
 (* ------------------------------------------------------------------------------------ *)
@@ -76,6 +77,30 @@ Definition f32_of_Z (z : Z) : Z := sf32_bits (round32 (sf_of_Z z)).
 (* f64 `as f32`, f32 `as f64` *)
 Definition f32_of_f64 (b : Z) : Z := sf32_bits (round32 (sf_of_bits b)).
 Definition f64_of_f32 (b : Z) : Z := sf_bits (round64 (sf32_of_bits b)).
+
+(* nearest binary32 (ties to even) of m * 10^e10, m > 0: built as Base/Float64.nearest_double_pos
+   with prec 24, emax 128.  Magnitudes >= 10^39 (> 2^128) overflow, magnitudes < 10^-46
+   (below half the least subnormal 2^-150) round to zero. *)
+Definition nearest_single_pos (m : positive) (e10 : Z) : spec_float :=
+  let k := digits10 (Zpos m) in
+  if 39 <=? k - 1 + e10 then S754_infinity false
+  else if k + e10 <=? -46 then S754_zero false
+  else if 0 <=? e10 then binary_round prec32 emax32 mode_NE false (m * Z.to_pos (10 ^ e10)) 0
+  else let '(mz, ez, lz) := SFdiv_core_binary prec32 emax32 (Zpos m) 0 (10 ^ (- e10)) 0 in
+       binary_round_aux prec32 emax32 mode_NE false mz ez lz.
+
+Definition nearest_single (d : decimal) : spec_float :=
+  match d_mant d with
+  | Zpos m => let x := nearest_single_pos m (d_exp d) in if d_neg d then sf_neg x else x
+  | _ => S754_zero (d_neg d)
+  end.
+
+(* the binary32 a spelling denotes (str::parse::<f32>) *)
+Definition sgl (l : list N) : spec_float :=
+  match read_decimal l with
+  | Some d => nearest_single d
+  | None => S754_nan
+  end.
 
 (* ------------------------------------------------------------------------------------ *)
 (* <iN/uN as FromStr>::from_str (std): optional sign ('+' always, '-' for signed types
@@ -250,7 +275,8 @@ End Ser.
                      visit_i64(i) iff MIN <= i <= MAX (0 <= i for unsigned); visit_f64 is
                      rejected.
    * f64 (f32)       deserialize_f64 (f32); accepts visit_f64(x) -> x (x as f32),
-                     visit_u64(u) -> u as f64 (as f32), visit_i64(i) -> i as f64 (as f32).
+                     visit_f32(x) -> x (f32), visit_u64(u) -> u as f64 (as f32),
+                     visit_i64(i) -> i as f64 (as f32).
    * char            deserialize_char; accepts a string of exactly one char.
    * String          deserialize_string; accepts visit_string.
    * ()              deserialize_unit; unit struct: deserialize_unit_struct; accept visit_unit.
@@ -280,16 +306,16 @@ Inductive nev := EvU (u : Z) | EvI (i : Z) | EvF (bits : Z).
 
 Definition dres := outcome unit tsd.
 
+(* visit_number (src/serde/de.rs): u64, else i64, else visit_f64 of the correctly rounded
+   double of the spelling (str::parse::<f64>) *)
+Definition num_event (n : list N) : nev :=
+  match as_u64 n with
+  | Some u => EvU u
+  | None => match as_i64 n with Some i => EvI i | None => EvF (sf_bits (dbl n)) end
+  end.
+
 Section De.
   Variable E : env.
-  Variable lossy : list N -> Z.
-
-  (* <&Number as Deserializer>::deserialize_any *)
-  Definition num_event (n : list N) : nev :=
-    match as_u64 n with
-    | Some u => EvU u
-    | None => match as_i64 n with Some i => EvI i | None => EvF (lossy n) end
-    end.
 
   Definition de_int (k : ikind) (e : nev) : dres :=
     match e with
@@ -299,8 +325,13 @@ Section De.
     end.
   Definition de_f64 (e : nev) : Z :=
     match e with EvU u => f64_of_Z u | EvI i => f64_of_Z i | EvF b => b end.
-  Definition de_f32 (e : nev) : Z :=
-    match e with EvU u => f32_of_Z u | EvI i => f32_of_Z i | EvF b => f32_of_f64 b end.
+  (* Value::deserialize_f32: integer spellings as integers (`as f32` in the visitor),
+     otherwise visit_f32 of the correctly rounded binary32 of the spelling *)
+  Definition de_f32 (n : list N) : Z :=
+    match as_u64 n with
+    | Some u => f32_of_Z u
+    | None => match as_i64 n with Some i => f32_of_Z i | None => sf32_bits (sgl n) end
+    end.
 
   (* MapKeyDeserializer *)
   Definition de_key (kt : kty) (k : key) : dres :=
@@ -369,7 +400,7 @@ Section De.
         match t with
         | TyBool => match v with VBool b => Ok (SdBool b) | _ => Err tt end
         | TyInt k => match v with VNum n => de_int k (num_event n) | _ => Err tt end
-        | TyF32 => match v with VNum n => Ok (SdF32 (de_f32 (num_event n))) | _ => Err tt end
+        | TyF32 => match v with VNum n => Ok (SdF32 (de_f32 n)) | _ => Err tt end
         | TyF64 => match v with VNum n => Ok (SdF64 (de_f64 (num_event n))) | _ => Err tt end
         | TyChar => match v with VStr [c] => Ok (SdChar c) | _ => Err tt end
         | TyStr => match v with VStr s => Ok (SdStr s) | _ => Err tt end
@@ -433,7 +464,6 @@ Section De.
                         end
                     | Some (VTuple ts) =>
                         match payload with
-                        | Some (VArr []) => Err tt      (* visitor.visit_unit(): rejected by the derived visitor *)
                         | Some (VArr l) => obind (de_tuple (de f) ts l) (fun xs => Ok (SdTupleVariant n vn xs))
                         | _ => Err tt
                         end
@@ -581,7 +611,6 @@ Inductive shape : Type :=
 | ShObject (l : list (str * shape)).
 
 Section Shape.
-  Variable lossy : list N -> Z.
   (* p32: read every number at binary32 precision (for data with f32 leaves:
      json-syntax spells the f32, serde_json widens it to f64 first) *)
   Variable p32 : bool.
@@ -592,12 +621,15 @@ Section Shape.
   Definition key_of_int (z : Z) : nkey :=
     if p32 then key32 (f32_of_Z z) else KZ z.
 
+  (* at binary32 precision the spelling itself is read as a binary32 (as deserialize_f32
+     does), not the double it reads as: that would round twice *)
   Definition num_key (n : list N) : nkey :=
-    match num_event lossy n with
-    | EvU u => key_of_int u
-    | EvI i => key_of_int i
-    | EvF b => key_of_float b
-    end.
+    if p32 then key32 (de_f32 n)
+    else match num_event n with
+         | EvU u => KZ u
+         | EvI i => KZ i
+         | EvF b => key_of_f64 b
+         end.
 
   Definition sort_shape_entries (l : list (str * shape)) : list (str * shape) := isort l.
 
@@ -677,13 +709,6 @@ Fixpoint sort_maps (d : tsd) : tsd :=
 (* ------------------------------------------------------------------------------------ *)
 (* Executable reference instances of the dependencies                                     *)
 
-(* Number::as_f64_lossy on a number spelling: the nearest double *)
-Definition lossy_ref (n : list N) : Z :=
-  match read_decimal n with
-  | Some d => sf_bits (nearest_double d)
-  | None => sf_bits S754_nan
-  end.
-
 (* shortest digits (n, k, s) of a positive finite m*2^e accepted by [chk s x] (meaning
    "s * 10^x reads back as the float"), closest to the value; as Spec/EcmaNumber.nks except
    that of two equally close candidates the larger is taken (observed of lexical:
@@ -751,10 +776,8 @@ Definition fmt_sf (chk : spec_float -> Z -> Z -> bool) (dot0 : bool) (x : spec_f
 
 Definition chk64 (x : spec_float) (s x10 : Z) : bool :=
   sf_eqb (nearest_double_pos (Z.to_pos s) x10) x.
-(* a binary32 is recognised through the path the deserializer takes: nearest double, then
-   `as f32` *)
 Definition chk32 (x : spec_float) (s x10 : Z) : bool :=
-  sf_eqb (round32 (nearest_double_pos (Z.to_pos s) x10)) x.
+  sf_eqb (nearest_single_pos (Z.to_pos s) x10) x.
 
 (* 17 significant digits nearest to m*2^e (ties to even), trailing zeros dropped: always
    reads back as the same double, and is integer-spelled exactly when the shortest
@@ -796,8 +819,8 @@ Definition fmt_sj_ref (b : Z) : list N := fmt17 true (sf_of_bits b).
 
 (* the instances the driver runs *)
 Definition to_value_ref (d : tsd) : outcome serr value := tser fmt_f64_ref fmt_f32_ref d.
-Definition from_value_ref (E : env) (fuel : nat) (t : ty) (v : value) : dres := de E lossy_ref fuel t v.
+Definition from_value_ref (E : env) (fuel : nat) (t : ty) (v : value) : dres := de E fuel t v.
 Definition from_sj_ref (j : tsj) : value := from_tsj fmt_sj_ref j.
-Definition shape_ref (p32 : bool) (v : value) : shape := shape_of lossy_ref p32 v.
+Definition shape_ref (p32 : bool) (v : value) : shape := shape_of p32 v.
 Definition shape_sj_ref (p32 : bool) (j : tsj) : shape := shape_of_sj p32 j.
-Definition num_key_ref (n : list N) : nkey := num_key lossy_ref false n.
+Definition num_key_ref (n : list N) : nkey := num_key false n.
